@@ -35,3 +35,31 @@ Definition grace_sched : list event := [Step 0 0] ++ rep 2 1 0 ++ [Step 1 2] ++ 
 Definition grace_final (ag : bool) := run ag (init LAbsent MAbsent two_servers) grace_sched.
 Lemma grace_needed : holders (grace_final false) = [1; 2] /\ holders (grace_final true) = [1].
 Proof. vm_compute. split; reflexivity. Qed.
+
+(* ------------------------------------------------------------------ the refutations, stated as Props/C18.v states them *)
+Definition s13_init := init (LRec 900) MAbsent two_servers.
+Definition s13b_init := init (LHalf 900) MAbsent two_servers.
+Definition s13c_init := init (LRec 900) (MRec 900) two_servers.
+Definition empty_init := init LAbsent MAbsent two_servers.
+
+Lemma mutex_all_schedules_refuted :
+  exists sched : list event,
+    holders (run true s13_init sched) = [1; 2] /\ s_took_lock (run true s13_init sched) = true.
+Proof. exists s13_sched. vm_compute. split; reflexivity. Qed.
+
+Lemma corrupt_cleanup_race_refuted :
+  exists sched : list event,
+    holders (run true s13b_init sched) = [1; 2] /\ s_took_lock (run true s13b_init sched) = true.
+Proof. exists s13b_sched. vm_compute. split; reflexivity. Qed.
+
+Lemma meta_of_live_authority_taken_refuted :
+  exists sched : list event,
+    holders (run true s13c_init sched) = [2] /\ s_lock (run true s13c_init sched) = LRec 2
+    /\ s_meta (run true s13c_init sched) = MAbsent
+    /\ s_took_meta (run true s13c_init sched) = true /\ s_took_lock (run true s13c_init sched) = false.
+Proof. exists s13c_sched. vm_compute. repeat split; reflexivity. Qed.
+
+Lemma corrupt_cleanup_needs_grace :
+  exists sched : list event,
+    holders (run false empty_init sched) = [1; 2] /\ holders (run true empty_init sched) = [1].
+Proof. exists grace_sched. vm_compute. split; reflexivity. Qed.
